@@ -549,6 +549,18 @@ def index(base, key):
             if uses and all(x[2] == Poly.atom(it) for x in uses) and \
                     it not in value_atoms(subst_value(a[2][0], {x: sym('@elem') for x in uses})):
                 return subst_value(a[2][0], {it: key})
+    if a[0] == 'idx' and a[1][0] == 'app' and a[1][1] == 'zip' and isinstance(key, Poly) and key.const_value() is not None \
+            and _scalar_index(a[2]) and all(isinstance(x, (Poly, Tup)) for x in a[1][2]):
+        # zip(A, B)[i][j] is (A, B)[j][i]
+        j = int(key.const_value())
+        if 0 <= j < len(a[1][2]):
+            src = a[1][2][j]
+            if isinstance(src, Tup):
+                ci = a[2].const_value()
+                if ci is not None and 0 <= int(ci) < len(src):
+                    return src.items[int(ci)]
+            else:
+                return index(src, a[2])
     if a[0] == 'app' and a[1] == 'setitem' and len(a[2]) == 3 and a[2][1] == key and isinstance(a[2][2], Poly) \
             and isinstance(key, (Poly, Slice, Tup)):
         return a[2][2]            # read back what was just stored under the same key
@@ -699,6 +711,8 @@ def subst_atom(a, mapping):
             k = new[1]
             if isinstance(k, Poly) and k.const_value() is not None:
                 return base[1].items[int(k.const_value())]
+        if a[0] == 'idx' and isinstance(new[0], Poly) and new[0] != Poly.atom(a[1]) and isinstance(new[1], (Poly, Slice, Tup)):
+            return index(new[0], new[1])        # the base changed: let the keys compose again
         return Poly.atom((a[0], base) + new[1:])
     if a[0] == 'app':
         name, args = a[1], new[1]
@@ -763,6 +777,26 @@ def unwiden(v):
             if a[0] == 'app' and a[1] in ('cast', 'm:astype') and len(a[2]) > 1 and isinstance(a[2][0], (Poly, Tup)) \
                     and repr(a[2][1]) in FLOAT_KINDS:
                 mapping[a] = a[2][0]
+        if not mapping:
+            return v
+        v = subst_value(v, mapping)
+    return v
+
+
+def block_rows_view(v, array, blocks, rows):
+    """v with `array.reshape(blocks, rows, -1)[k]` (array being a 2-D array of blocks*rows rows) rewritten as the row block
+    `array[rows*k : rows*k + rows]` it is a view of."""
+    for _ in range(4):
+        mapping = {}
+        for a in value_atoms(v):
+            if a[0] != 'idx' or a[1][0] != 'app' or a[1][1] not in ('m:reshape', 'reshape') or not _scalar_index(a[2]):
+                continue
+            args = list(a[1][2])
+            if len(args) == 2 and isinstance(args[1], Tup):
+                args = [args[0]] + list(args[1].items)
+            if len(args) == 4 and args[0] == array and args[1] == blocks and args[2] == Poly.const(rows) \
+                    and args[3] == Poly.const(-1):
+                mapping[a] = index(array, Slice(a[2] * rows, a[2] * rows + rows))
         if not mapping:
             return v
         v = subst_value(v, mapping)
